@@ -435,7 +435,8 @@ func run(r *report.Run, shard, nshards int, replayFile string) {
 	r.Rule = "BFS from 5 (thorough 6) base states {sale fully configured × funder balances (first poor + second rich | exactly enough | none | first rich + second poor), fee granter never configured, two chains with a sale contract each} over " +
 		"AddLicence(funder∈{F1,F2}, client∈{fresh1,fresh2,account holder U,licensed L0}, amount∈{0,1,5}, months∈{0,1,24}, denom∈{ugrain,uother}) as signed MsgAddLightNodeClientLicense txs; " +
 		"SaleQuorum(chain, client, amount∈{0,1,5} GRAIN, reporting contract∈{the chain's own, another}) = three validators' signed MsgLightNodeSaleClaim + skyway.EndBlocker; " +
-		"Register(who) / Register with creator≠first signer / Register for a licensee signed by someone else; Auth(who); Tick(+40 d); governance: funders on/off, sale-contract set replaced through the real proposal handler " +
+		"Register(who) / Register with creator≠first signer / Register for a licensee signed by someone else, alone and behind a harmless first message of the same tx; Auth(who); " +
+		"one base state with every client-naming operation (AddLicence, SaleQuorum, Register, Auth) under every rendering of the address (canonical, ALL-UPPER-CASE, mixed case as must-reject control) in all buy-under-X / activate-under-Y combinations; Tick(+40 d); governance: funders on/off, sale-contract set replaced through the real proposal handler " +
 		"(one chain: on/off; two-chain base state: every subset of {bnb-main, eth-main}, sales reported from both chains by either contract); " +
 		"every AddLicence, SaleQuorum and Register is also executed once per collaborator call (bank, account, feegrant keeper) with that call failing; " +
 		"oracle in every state, per denom: escrow == Σ unactivated licences paid in that denom, licence / client / account-kind / vesting-schedule (original vesting = the licensed coin) / funder-balance / fee-grant sets equal the ledger, " +
@@ -449,7 +450,9 @@ func run(r *report.Run, shard, nshards int, replayFile string) {
 		"activation 'only by the licensed address itself' = the activated licence is the one of the message creator (anchor: activation keyed by message creator), and a tx naming a licensee as creator but signed by someone else is rejected",
 		"vesting end = activation block time .AddDate(0, months, 0) (calendar months, as the keeper computes it); linearity checked at start, midpoint (±1) and end of the schedule",
 		"fresh1/fresh2 symmetry: fresh2 becomes a creation target only once fresh1 has an account (handlers do not depend on address order)",
-		"alphabets: 'full' = amounts × months in ugrain plus 4 (amount, months) pairs in uother, sales on eth-main by its own / another contract; 'reduced' = every amount, month value and denom but 4 creating and 2 must-be-rejected pairs; 'contracts' (two-chain base state only) = one creating pair, 1-GRAIN sales from both chains by either chain's contract, governance over all contract subsets",
+		"alphabets: 'renderings' (one base state) = one creating pair by F2 and 1-GRAIN sales under the three renderings, Register / Auth under the three renderings; 'full' = amounts × months in ugrain plus 4 (amount, months) pairs in uother, sales on eth-main by its own / another contract; 'reduced' = every amount, month value and denom but 4 creating and 2 must-be-rejected pairs; 'contracts' (two-chain base state only) = one creating pair, 1-GRAIN sales from both chains by either chain's contract, governance over all contract subsets",
+		"address renderings: licence and client records are keyed by the address string as supplied, accounts by the decoded bytes; the oracle is evaluated on ACCOUNTS: at most one pending licence per account, an activation removes the pending licence record of that account whatever rendering it is keyed by, escrow == Σ of the stored pending records; under which string the client record is stored is not prescribed. Messages whose creator is a non-canonical rendering are run at the application's message server in a tx-like cache (RegisterMsgServer / AuthMsgServer): the ante chain admits such a creator only for a signer holding a fee grant from that account (delegation is not in the alphabet); the really signed variant is explored too and is rejected by ante",
+		"'activated only by the licensed address itself' through the ante chain: a successful tx that activates X's licence must be signed by X (no fee grants from licensees exist in the alphabet), also when the activation is the second message behind a harmless first one (MsgAddStatusUpdate of the signer)",
 		"SaleQuorum is a macro (three votes + end-blocker); vote interleavings are C02's subject; the skyway store apart from the last observed nonce is not hashed (attestation records are not read by the explored handlers)",
 	}
 
@@ -1346,6 +1349,10 @@ func (e *env) ops(n *explore.Node) []explore.Op {
 					e.cnt["activations"]++
 					if rg.rend != rLower || l.Rend != rLower {
 						e.cnt["activations_noncanonical_rendering"]++
+					}
+					if rg.signers != nil && l.Rend != rLower {
+						// expected 0 on this tree: a licence keyed by a non-canonical rendering is out of reach of the licensee's own signed tx
+						e.cnt["activations_of_noncanonical_licence_by_signed_tx"]++
 					}
 				}
 				delete(g.Lic, rg.creator.Name)
